@@ -72,3 +72,33 @@ fn run_rec(cfg: &Cfg, vecs: &[Vector], out: &mut Vec<Obs>) {
 }
 
 pub const CHUNK: usize = 32768;
+
+pub const CFG4: [&[&str]; 4] = [&[], &["-U"], &["-R"], &["-U", "-R"]];
+
+/// Chunked sweep: item i of a chunk gets address `addr_base + i`; `mk` builds the lines of
+/// the vector, `judge` sees the observation.
+pub fn sweep<T>(cfg: &Cfg, items: &[T], addr_base: u32, mk: impl Fn(&T, u32) -> Vec<Vec<u8>>, mut judge: impl FnMut(&T, u32, &Obs)) {
+    for chunk in items.chunks(CHUNK) {
+        let vecs: Vec<Vector> = chunk
+            .iter()
+            .enumerate()
+            .map(|(i, t)| {
+                let addr = addr_base + i as u32;
+                Vector { addr, lines: mk(t, addr) }
+            })
+            .collect();
+        let obs = run_vectors(cfg, &vecs);
+        for ((t, v), o) in chunk.iter().zip(vecs.iter()).zip(obs.iter()) {
+            judge(t, v.addr, o);
+        }
+    }
+}
+
+/// run one vector alone (replay path)
+pub fn single(cfg: &Cfg, addr: u32, lines: Vec<Vec<u8>>) -> Obs {
+    run_vectors(cfg, &[Vector { addr, lines }]).pop().unwrap()
+}
+
+pub fn hexline(f: &crate::frames::Frame) -> Vec<u8> {
+    f.hex().into_bytes()
+}
